@@ -408,7 +408,7 @@ func c11One(c *Ctx, r *gen.R, idx int) {
 				probes = append(probes, v)
 			}
 		}
-		probes = append(probes, append([][]byte{c11Lower(c11GenLabel(r))}, b...))                             // child
+		probes = append(probes, append([][]byte{c11Lower(c11GenLabel(r))}, b...))                           // child
 		probes = append(probes, append([][]byte{c11Lower(c11GenLabel(r)), c11Lower(c11GenLabel(r))}, b...)) // grandchild
 	}
 	for i := 0; i < 6; i++ {
